@@ -23,3 +23,60 @@ def kani_trusted_scan(units):
         if n:
             out.add(f"{n} kani::assume preconditions in {os.path.basename(u.file)} (each followed by cover! vacuity guards)")
     return out
+
+
+# ------------------------------------------------------------------------------------------------
+# C18: dispatcher arms, extracted from the handler sources on every run
+# ------------------------------------------------------------------------------------------------
+import json
+from common import REPO, VERIF
+
+ARM_RE = re.compile(r'^\s*((?:"[^"]+"\s*\|?\s*)+)=>', re.M)
+
+
+def control_arms():
+    hdir = os.path.join(REPO, "crates/trust-runtime/src/control/handlers")
+    mods = re.findall(r"(?m)^\s*mod\s+(\w+)\s*;", open(os.path.join(hdir, "mod.rs")).read())
+    arms = []
+    for m in mods:
+        p = os.path.join(hdir, m + ".rs")
+        if not os.path.exists(p):
+            continue
+        src = open(p).read()
+        # match arms may wrap: join lines ending with `|`
+        src = re.sub(r"\|\s*\n\s*", "| ", src)
+        for mm in ARM_RE.finditer(src):
+            for name in re.findall(r'"([^"]+)"', mm.group(1)):
+                arms.append((name, m))
+    return mods, arms
+
+
+N_CHUNKS = 8
+
+
+def gen_control_arms(dst):
+    mods, arms = control_arms()
+    spec = json.load(open(os.path.join(VERIF, "spec/control_roles.json")))
+    ro = set(spec["read_only"])
+    dbg = set(spec["debug_class_files"])
+    if len(arms) < N_CHUNKS or len(arms) > N_CHUNKS * 12:
+        raise SystemExit(f"UNDECIDED reason=dispatcher arm extraction found {len(arms)} arms (expected {N_CHUNKS}..{N_CHUNKS*12}); anchor lost")
+    lines = ["// GENERATED on every run by /verif/lib/tables.py from control/handlers/*.rs -- do not edit",
+             "// (name, read_only per /verif/spec/control_roles.json, arm lives in a debug-class handler file)"]
+    chunks = [arms[k::N_CHUNKS] for k in range(N_CHUNKS)]
+    lines.append(f"pub const CHUNKS: [&[(&str, bool, bool)]; {N_CHUNKS}] = [")
+    for ch in chunks:
+        lines.append("    &[")
+        for n, f in ch:
+            lines.append(f'        ("{n}", {"true" if n in ro else "false"}, {"true" if f in dbg else "false"}),')
+        lines.append("    ],")
+    lines.append("];")
+    lines.append(f"pub const ARM_COUNT: usize = {len(arms)};")
+    lines.append("pub const CREDENTIAL_KEYS: &[&str] = &[" + ", ".join(f'"{k}"' for k in spec["credential_keys"]) + "];")
+    out = os.path.join(dst, "trust_runtime", "control_arms.in")
+    data = "\n".join(lines) + "\n"
+    if not os.path.exists(out) or open(out).read() != data:
+        open(out, "w").write(data)
+
+
+GENERATORS.append(gen_control_arms)
